@@ -338,6 +338,45 @@ def law_integer_arguments(sw, ell, name, rng):
                       dict(case, form=form))
 
 
+def law_broadcast_arguments(sw, ell, name, rng):
+    """Arguments of different but broadcastable shapes (an open mesh lat[:, None] x lon[None, :], a one-element array against
+    a vector, a scalar against arrays): the result of the element-wise call on the arrays broadcast beforehand."""
+    g = sw.g
+    la, lo = rng.uniform(-80, 80, 3), rng.uniform(-170, 170, 4)
+    h0, r0 = float(rng.uniform(0, 20000)), float(ell[0] + rng.uniform(0, 500000))
+    shapes = [("open mesh", lambda v: v, la.reshape(-1, 1), lo.reshape(1, -1)),
+              ("one-element array x vector", lambda v: np.array([v]), la[:1], lo),
+              ("scalar x mesh", lambda v: v, la.reshape(-1, 1, 1)[:2], lo.reshape(1, -1))]
+    calls = [("geodetic2cart", lambda a, b, c: g.geodetic2cart(a, b, c, ell), h0),
+             ("geodetic2geocentric", lambda a, b, c: g.geodetic2geocentric(a, b, c, ell), h0),
+             ("geocentric2geodetic", lambda a, b, c: g.geocentric2geodetic(a, b, c, ell), r0),
+             ("geocentric2cart", g.geocentric2cart, r0)]
+    for fname, fn, first in calls:
+        for label, wrap, a_lat, a_lon in shapes:
+            args = [wrap(first), a_lat, a_lon]
+            case = {"law": "broadcast-arguments", "fn": fname, "ellipsoid": name, "ell": list(ell), "shapes": [list(np.shape(a)) for a in args]}
+            full = [np.array(b, dtype=float) for b in np.broadcast_arrays(*[np.asarray(a, dtype=float) for a in args])]
+            want = sw.call("broadcast-arguments", case, fn, *full)
+            got = sw.call("broadcast-arguments", dict(case, form=label), fn, *args)
+            if want is None or got is None:
+                if want is not None:
+                    sw.report("broadcast-arguments:" + fname, f"{fname}(..., {name}) failed for arguments of the broadcastable shapes "
+                              f"{case['shapes']} ({label}); it works on the same values broadcast beforehand", dict(case, form=label))
+                continue
+            for k, (u, v) in enumerate(zip(got, want)):
+                u, v = np.asarray(u, dtype=float), np.asarray(v, dtype=float)
+                # a component that does not depend on every argument (z of a sphere: no longitude) may keep the smaller shape
+                try:
+                    ub = np.broadcast_to(u, v.shape)
+                except ValueError:
+                    ub = None
+                if ub is None or not np.all(np.abs(ub - v) <= 1e-9 * np.maximum(np.abs(v), 1.0) + 1e-9):
+                    sw.report("broadcast-arguments:" + fname, f"{fname}(..., {name}) on arguments of shapes {case['shapes']} ({label}) returns "
+                              f"shape {u.shape} / other values as result {k} than on the same values broadcast beforehand (shape {v.shape})",
+                              dict(case, form=label))
+                    break
+
+
 def law_geodetic_roundtrip(sw, ell, h, lat, lon, name):
     """scalar calls: cart2geodetic(geodetic2cart(p)) = p to 1 cm / 1e-7 deg"""
     g = sw.g
@@ -633,6 +672,7 @@ def law_sweep(ctx, g, counter=None):
             law_cartesian_roundtrip(sw, ell, float(rr[i]), float(latc[i]), float(lonc[i]), name)
         law_arguments_untouched(sw, ell, name, rng)
         law_integer_arguments(sw, ell, name, rng)
+        law_broadcast_arguments(sw, ell, name, rng)
     # line of sight
     n = ctx.n(4000, 200000)
     r = rng.uniform(3.3e6, 7.5e6, n)
